@@ -227,14 +227,16 @@ class H3c(Case):
     functions = ("SystemChain.add_site_hamiltonian", "SystemChain.add_site_dissipation", "SystemChain.add_nn_hamiltonian",
                  "SystemChain.add_nn_dissipation", "SystemChain.get_nn_full_liouvillians", "operators.cross_*")
 
-    def __init__(self, term):
-        self.term = term
-        self.id = "H3c/chain_%s" % term
-        self.bounds = {"d": 2, "sites": 2 if term != "full3" else 3, "term": term}
+    def __init__(self, term, dims=None):
+        self.term, self.dims = term, dims
+        self.id = "H3c/chain_%s%s" % (term, "" if dims is None else "_d%d%d" % dims)
+        self.bounds = {"d": 2 if dims is None else list(dims), "sites": 2 if term != "full3" else 3, "term": term}
         self.timeout_s = 300
 
     def run(self, inp):
         d = 2
+        if self.dims is not None:
+            return self.run_mixed(inp)
         I1 = 1j if inp.mode == "real" else _i()
         half = 0.5 if inp.mode == "real" else _half()
         if self.term == "full2":
@@ -301,6 +303,33 @@ def _i():
     return S(0, 1)
 
 
+def _run_mixed(self, inp):
+    """two neighbouring sites of DIFFERENT dimensions (dl, dr): the nearest-neighbour generators must still be the
+    documented ones in the kron(site_l, site_r) Liouville layout"""
+    dl, dr = self.dims
+    I1 = 1j if inp.mode == "real" else _i()
+    half = 0.5 if inp.mode == "real" else _half()
+    ch = oqupy.SystemChain([dl, dr])
+    rho = inp.arr("r", (dl * dr, dl * dr), cplx=True)
+    if self.term == "nn_ham":
+        Hl, Hr = herm_state(inp, "Hl", dl), herm_state(inp, "Hr", dr)
+        ch.add_nn_hamiltonian(0, Hl, Hr)
+        Hh = np.kron(Hl, Hr)
+        exp = (Hh @ rho - rho @ Hh) * (-I1)
+    else:
+        Al, Ar = inp.arr("Al", (dl, dl), cplx=True), inp.arr("Ar", (dr, dr), cplx=True)
+        g = inp.real("g", lo=0)
+        ch.add_nn_dissipation(0, Al, Ar, g)
+        A = np.kron(Al, Ar)
+        Ad = _dag(A)
+        exp = g * (A @ rho @ Ad - (Ad @ A @ rho + rho @ Ad @ A) * half)
+    got = ch.nn_liouvillians[0].dot(two_site_vec(rho, dl, dr))
+    return [Ob.eq("two-site generator", got, two_site_vec(exp, dl, dr))]
+
+
+H3c.run_mixed = _run_mixed
+
+
 class H5(Case):
     """GibbsTempo.get_state(): unit trace whenever the trace of the last stored state is non-zero"""
     functions = ("GibbsTempo.get_state",)
@@ -335,7 +364,7 @@ def cases(tier):
           H1("pt", 3, 1, True), H1("pt", 3, None), H1("pt", 2, 2), H1("pt", 4, 2),
           H1("mf", 3, 1), H1("mf", 3, None), H1("mf", 4, 2, True),
           H2("tempo", 2, 1), H2("pt", 2, 1), H2("tempo", 2, None),
-          H3(2, 1), H3(2, 2), H3(3, 1), H3c("site"), H3c("nn_ham"), H3c("nn_diss"), H3c("full3"), H3c("full2"), H5(2), H5(3)]
+          H3(2, 1), H3(2, 2), H3(3, 1), H3c("site"), H3c("nn_ham"), H3c("nn_diss"), H3c("full3"), H3c("full2"), H3c("nn_diss", (2, 3)), H3c("nn_ham", (3, 2)), H5(2), H5(3)]
     if tier == "thorough":
         cs += [H1("tempo", 5, 2, True), H1("pt", 5, 2, True), H1("mf", 5, 3), H1("tempo", 2, 1, d=3), H1("pt", 2, 1, d=3),
                H2("tempo", 3, 1), H2("pt", 3, 1), H2("pt", 3, None), H3(3, 2), H1("mf", 4, 1, True), H1("tempo", 4, None),
